@@ -283,6 +283,48 @@ def run(ctx, rep):
         else:
             rep.violated(k, "a RED1/RED2 factor given by option or metadata is the one used, whatever the factor source contains",
                          construct=o.construct, why=o.why)
+    # "otherwise the metadata of the components file if present": the reader takes every #META / #CTE_ line of the text,
+    # wherever it stands (the list of metadata is a filter-map of the list of all lines, nothing positional in between)
+    lib = ctx.lib
+    pb = ctx.find_impl_method(lib, "FromStr", "Components", "from_str")
+    ev3, r3, _a3 = ctx.eval_entry("lib", pb, opaque=["components::Components::normalize"])
+    ncalls = [t for t in tm.subterms(r3) if t.op == "call" and "normalize" in str(t.a[0])]
+    key = "C19/Q5/metadata-lines"
+    if len(ncalls) != 1:
+        rep.violated(key + "/anchor", "parsing components ends in one normalisation of what was read", construct=loc_of(pb))
+    else:
+        cmeta = tm.proj(ncalls[0].a[1], 0, 0, "meta")
+        bad = []
+        lits = set()
+        x = cmeta
+        found_lines = False
+        for _ in range(40):
+            if not isinstance(x, tm.T):
+                break
+            if x.op == "lines":
+                found_lines = True
+                break
+            if x.op in ("collect", "map", "iter", "cloned", "copied", "filter_map"):
+                x = x.a[0]
+            elif x.op == "filter":
+                for t in tm.subterms(x.a[1]):
+                    if t.op == "starts_with" and t.a[1].op in ("str", "char"):
+                        lits.add(t.a[1].a[0])
+                    elif t.op in ("position_val", "index", "len", "call"):
+                        bad.append("filter uses %s" % t.op)
+                x = x.a[0]
+            else:
+                bad.append("%s" % (x.a[0] if x.op == "call" else x.op))
+                break
+        if not found_lines and not bad:
+            bad.append("the metadata list is not derived from the lines of the text")
+        if not (lits >= {"#META", "#CTE_"}):
+            bad.append("line selection literals %s" % sorted(lits))
+        if bad:
+            rep.violated(key, "every metadata line of the components file is read, wherever it stands in the file",
+                         construct=loc_of(pb), why="; ".join(str(b) for b in bad)[:300])
+        else:
+            rep.discharged(key, "metadata = every line of the text starting with #META or #CTE_, parsed (no positional selection)")
     rep.analysed = {"exit_sites": len(exits), "stdout_prints": len(prints)}
     rep.floor("exit-sites", len(exits), 14)
 
